@@ -10,3 +10,7 @@ else
   _gr=$(cd "${REPO:-/repo}" && GOTOOLCHAIN=auto go env GOROOT 2>/dev/null)
   if [ -n "$_gr" ] && [ -x "$_gr/bin/go" ]; then export PATH="$_gr/bin:$PATH" GOROOT="$_gr"; fi
 fi
+# The checker keeps its own build cache so that cleaning the shared one (which
+# grows quickly when patched variants of lnd are built and tested) cannot pull
+# export data away from under a running check.
+export GOCACHE="${VERIF_GOCACHE:-/root/.cache/go-build-verif}"
